@@ -38,6 +38,17 @@ def run_case(c):
                 ref = getattr(s, m1[second])()
                 return {"list": [s.degree(k, second) for k in range(1, len(ref))], "ref": ref}
             R.append(call("degrees", dict(i, dir=second, after=first), g, lambda o: {"list": names(o["list"]), "ref": names(o["ref"])}))
+        # one scale object that has answered, then is given another octave count (octaves is a plain public attribute): it answers for what it now is
+        if hasattr(mk(cls, t, n), "octaves"):
+            for d, meth in (("a", "ascending"), ("d", "descending")):
+                def h():
+                    s = mk(cls, t, n)
+                    r0 = getattr(s, meth)()
+                    [s.degree(k, d) for k in range(1, len(r0))]
+                    s.octaves = n + 1
+                    ref = getattr(s, meth)()
+                    return {"list": [s.degree(k, d) for k in range(1, len(ref))], "ref": ref}
+                R.append(call("degrees", dict(i, dir=d, after="its octave count was raised by one"), h, lambda o: {"list": names(o["list"]), "ref": names(o["ref"])}))
     elif kd == "eq":
         a, b = c["a"], c["b"]
         def f():
